@@ -13,7 +13,7 @@
 (*   [k |-> "list", ln |-> n]              one LIST line                    *)
 (*   [k |-> "input", s |-> prompt, caps |-> BOOLEAN]                         *)
 (***************************************************************************)
-EXTENDS BasicProg
+EXTENDS BasicRenum
 
 CONSTANT Limit         \* size of each memory pool (65535 in the real interpreter)
 
@@ -393,6 +393,14 @@ Exec(m, p, s) ==
                               ELSE LET n == CHOOSE n \in c : \A y \in c : n <= y IN
                                    Lst(Item(mm, [k |-> "list", ln |-> n, text |-> ShowLine(n, m.src[n])]), n + 1)
          IN  [Lst(m, 0) EXCEPT !.pc = Adv(p)]
+    [] s.k = "renum" ->
+         IF InProgram(p) THEN Fail(m, p, Err(EIllegalDirect))
+         \* a program with compile-time errors is not renumbered: they are reported instead
+         ELSE IF m.perr # {} THEN GoReady(Item(FreshLine(m), [k |-> "err", errs |-> m.perr]))
+         ELSE LET r == RenumMap(DOMAIN m.src, s.new, s.old, s.step) IN
+              IF ~r.ok THEN Fail(m, p, Err(AnyErr))
+              ELSE LET src2 == RenumSrc(m.src, r.f) IN
+                   GoReady(Edited(m, [n \in DOMAIN src2 |-> Norm(src2[n])], src2))
     [] s.k = "cls" -> [Item(m, [k |-> "cls"]) EXCEPT !.pc = Adv(p)]
     [] OTHER -> OutOfModel(m, "statement")
 
@@ -421,6 +429,10 @@ RunToWait(m, fuel) ==
   IF m.mode # "run" THEN m
   ELSE IF fuel = 0 THEN OutOfModel(m, "fuel")
   ELSE RunToWait(Step(m), fuel - 1)
+
+\* at most n steps (still running afterwards if the machine did not come to wait)
+RECURSIVE RunSteps(_, _)
+RunSteps(m, n) == IF m.mode # "run" \/ n = 0 THEN m ELSE RunSteps(Step(m), n - 1)
 
 \* ---- user actions ----------------------------------------------------------
 \* a numbered line: insert / replace; an empty one deletes (no change if absent)
